@@ -195,11 +195,24 @@ impl Monitor for C16 {
                     ctx.violation(format!("{which}: candidate of a captured package missing from the snapshot"), format!("package {}", pk.name));
                     continue;
                 }
-                let mut snap_order = cands.clone();
-                snap_order.sort_by_key(|&s| sn.solvables.get(SolvableId(s)).unwrap().order);
+                // observed through behaviour: what the snapshot provider's sort_candidates does to
+                // the package's candidate list
+                let snap_order: Vec<u32> = match catch(|| {
+                    let cache = resolvo::SolverCache::new(sn.provider());
+                    let mut list: Vec<SolvableId> = cands.iter().map(|&s| SolvableId(s)).collect();
+                    futures::FutureExt::now_or_never(cache.provider().sort_candidates(&cache, &mut list)).expect("sort_candidates yielded");
+                    list.iter().map(|s| s.0).collect()
+                }) {
+                    Caught::Ok(v) => v,
+                    Caught::Panic(pi) => {
+                        ctx.violation(format!("{which}: sort_candidates of the snapshot provider panicked: {}", pi.signature()), format!("package {}", pk.name));
+                        continue;
+                    }
+                    _ => continue,
+                };
                 ctx.rep.count("package-orders-compared");
                 if live_order != snap_order && cands.len() > 1 {
-                    ctx.violation(format!("{which}: candidate preference order not preserved"), format!("package {}: live {:?} snapshot {:?} (order fields {:?})", pk.name, live_order, snap_order, cands.iter().map(|&s| sn.solvables.get(SolvableId(s)).unwrap().order).collect::<Vec<_>>()));
+                    ctx.violation(format!("{which}: candidate preference order not preserved"), format!("package {}: live {:?} snapshot {:?}", pk.name, live_order, snap_order));
                 }
             }
             // (4) additions
